@@ -79,9 +79,9 @@ CLAIMED["C20"] = ("§3 C20",
     "diff.Final.Diff is the oracle the command relies on (it compares scalars by kind only, see seeded/C20-a)")
 
 CLAIMED["C06"] = ("§3 C06",
-    "constant folding of the apd context precision reaching each arithmetic entry point (through method values, selector functions and package initialisers), CFG gates on condition flags and zero-divisor tests",
-    "Narrow: decides that integer +, -, * and the multiplier of number literals run in an exact decimal context (precision 0) while / and ** use precision >= 34, that numOp returns a number only without error/division-by-zero, that integer division tests for a zero divisor first, that the literal's integral test consults Inexact, and that / yields a float kind. It does not decide rounding correctness, comparison order, Euclidean identities, multiplier values or print/parse round trips. The defect found by this rule (34-digit rounding of big integers and of multiplier literals) was repaired in /repo (fix: commit 0f65d2f).",
-    "apd semantics of precision 0 trusted; float +,-,* keep the 34-digit context (the spec permits rounding of floats)")
+    "constant folding of the apd context precision reaching each arithmetic entry point (through method values, selector functions and package initialisers), CFG gates on condition flags and zero-divisor tests, three-valued evaluation of cmpTonode's per-operator result over r in {-1,0,+1}, operand-order and who-may-order rules on BinOp's comparison sites, registry agreement of the div/mod/quo/rem builtins across compile -> adt -> math/big, operand non-mutation",
+    "Narrow: decides that integer +, -, * and the multiplier of number literals run in an exact decimal context (precision 0) while / and ** use precision >= 34, that numOp returns a number only without error/division-by-zero, that integer division tests for a zero divisor first and does not mutate its operands, that the literal's integral test consults Inexact, that / yields a float kind; that each ordering operator maps the three-way comparison result by its truth table, every comparison site passes Compare(left, right) in that order and numbers are ordered by (*apd.Decimal).Cmp alone; and that div/mod are wired to the Euclidean big-integer pair and quo/rem to the truncated pair with operands in order at every layer. It does not decide rounding correctness of inexact results, the Euclidean identities themselves (math/big is trusted), multiplier values or print/parse round trips. The defect found by the precision rule (34-digit rounding of big integers and of multiplier literals) was repaired in /repo (fix: commit 0f65d2f).",
+    "apd and math/big semantics trusted; float +,-,* keep the 34-digit context (the spec permits rounding of floats)")
 
 CLAIMED["C01"] = ("§3 C01",
     "per-case must-pass analysis of the two conjunct dispatchers (unshare or delegation on every path through an accumulating case), CFG gates on shareIfPossible, map-iteration order-leak classification over evaluator/compiler/build/load",
